@@ -1,6 +1,6 @@
 # Sizing and claim for C12 (see props/__init__.py)
 SPEC = {
-        "quick": {"rc_cases": 300000, "rc_procs": 10, "enum": True},
+        "quick": {"rc_cases": 220000, "rc_procs": 10, "enum": True},
         "thorough": {"rc_cases": 1000000, "rc_procs": 8, "enum": True, "fuzz_secs": 120, "fuzz_workers": 8},
         "claim": {
             "category": "exploration",
